@@ -61,6 +61,12 @@ void run_cfg(Sys& sys, const vhist::Options& opt) {
     // vh::run_isolated zeroes ALL counters at every (re)start, which loses the counters of configurations run
     // earlier by this shard; keep them here and add them back afterwards.
     vh::Shared* sh = vh::shm();
+    if (!G().in_consequence_pass) {
+        void* fl = mmap(nullptr, 4096, PROT_READ | PROT_WRITE, MAP_SHARED | MAP_ANONYMOUS, -1, 0);
+        if (fl != MAP_FAILED) G().in_consequence_pass = static_cast<volatile int*>(fl);
+    }
+    if (G().in_consequence_pass) *G().in_consequence_pass = 0;
+    G().consequence_pass = true;
     int nsaved = sh->nstat;
     std::vector<long long> saved(sh->stat_val, sh->stat_val + nsaved);
     std::set<std::string> skip;
@@ -81,6 +87,13 @@ void run_cfg(Sys& sys, const vhist::Options& opt) {
                              S.closed ? "closure" : (opt.max_depth >= 0 ? vh::fmt("depth<=%d", opt.max_depth).c_str() : "capped")));
         });
         if (ok) break;
+        if (G().in_consequence_pass && *G().in_consequence_pass) {
+            // the crash happened while a structurally broken state was queried for the semantic check: start over without that pass
+            *G().in_consequence_pass = 0;
+            G().consequence_pass = false;
+            vh::note(sys.name() + ": consequence pass disabled after a crash in a structurally broken state");
+            continue;
+        }
         skip.insert(sh->replay);
         if (r + 1 >= 40) {
             vh::cap(sys.name() + ": too many crashing transitions; exploration stopped");
